@@ -1387,8 +1387,16 @@ class WorkflowConductor(object):
         # This conversion also removes any duplicate task rerun requests.
         tasks = {t.task_state_entry_id: t for t in task_requests or []}
 
-        # If the list of tasks is provided, verify if task exist and rerunnable.
-        invalid_rerun_requests = [t for k, t in tasks.items() if k not in self.workflow_state.tasks]
+        # If the list of tasks is provided, verify if task exist and rerunnable. A task that is
+        # not completed, i.e. the workflow failed while the task is still running, cannot be rerun.
+        # Otherwise, the new task state entry has no status when the running action completes.
+        invalid_rerun_requests = [
+            t
+            for k, t in tasks.items()
+            if k not in self.workflow_state.tasks
+            or self.workflow_state.get_task(t.task_id, t.route).get("status")
+            not in statuses.COMPLETED_STATUSES
+        ]
 
         if invalid_rerun_requests:
             raise exc.InvalidTaskRerunRequest(invalid_rerun_requests)
